@@ -591,6 +591,91 @@ def diff_scrub_touch(chk, tool, shim, base, rng, caches=(1, 3, 4, 5, 8, 128)):
     return stats
 
 
+def bad_marks(tool, arr, env):
+    """positions marked bad in the saved info, read back through `status -G -l`"""
+    logp = os.path.join(arr.base, 'log_status')
+    if os.path.exists(logp):
+        os.remove(logp)
+    e = dict(os.environ)
+    e.update(env)
+    subprocess.run([tool] + FAST + ['-G', '-c', arr.conf(), '-l', logp, 'status'], stdout=subprocess.DEVNULL, stderr=subprocess.DEVNULL, env=e, timeout=60)
+    bad = []
+    if os.path.exists(logp):
+        for l in open(logp, errors='replace'):
+            f = l.rstrip('\n').split(':')
+            if f[0] == 'block' and len(f) >= 6 and f[5] == 'bad':
+                bad.append(int(f[1]))
+    return sorted(bad)
+
+
+def diff_scrub_cross(chk, tool, shim, base, rng, caches=(1, 3, 8, 128)):
+    """scrub of stripes shared by an unsynced-by-timestamp (touched) file of one disk and a silently corrupted synced
+    block of ANOTHER disk, both disk orders: the classification of a block may depend only on its own disk.  Compared
+    across cache depths and reader arrival orders, and against the expected classification."""
+    stats = {'variants': 0}
+    env0 = {'LD_PRELOAD': shim} if shim else {}
+    nfiles = 12
+    for np_ in (1, 2):
+        d = os.path.join(base, 'arr_cross%d' % np_)
+        os.makedirs(d)
+        arr = Array(d, 3, np_, rng.randrange(1, 10 ** 6), oneblock=nfiles)
+        arr.fresh()
+        pdir = os.path.join(arr.work, 'p')
+        rc, out, tags = run_tool(tool, arr, 1, ['sync'], env0)
+        if rc != 0:
+            chk.notes.append('cross scenario could not be prepared (sync rc %s)' % rc)
+            continue
+        # (stripe, touched disks, corrupted disk)
+        plan = [(2, [0], 1), (5, [2], 1), (8, [0], 2), (9, [1, 2], 0), (10, [], 1)]
+        for stripe, touched, cor in plan:
+            for k in touched:
+                os.utime(os.path.join(arr.work, 'd%d' % k, 'f%02d' % stripe), (1500009000 + stripe, 1500009000 + stripe))
+            _flip(os.path.join(arr.work, 'd%d' % cor, 'f%02d' % stripe))
+        for k in range(arr.nd):
+            os.utime(os.path.join(arr.work, 'd%d' % k), (1500000000, 1500000000))
+        exp_bad = sorted(st_ for st_, _, _ in plan)
+        exp_err = sorted('%d:d%d:f%02d' % (st_, cor, st_) for st_, _, cor in plan)
+        save = os.path.join(arr.base, 'save_cross')
+        shutil.copytree(pdir, save, copy_function=shutil.copy2)
+        descr0 = {'array': {'nd': 3, 'np': np_, 'seed': arr.seed, 'one_block_files_per_disk': nfiles},
+                  'scenario': 'sync; per stripe (stripe, touched disks, silently corrupted disk) = %s; scrub -p full' % plan}
+        modes = [('plain', {})] + [('yield%d' % y, {'SNAPRAID_VERIF_YIELD': str(y)}) for y in (1, 2, 3)] + \
+                [('slow_d%d' % k, {'C13_SLOW_DIR': '/work/d%d/' % k, 'C13_SLOW_US': '400'}) for k in range(arr.nd)]
+        ref = None
+        for cache in caches:
+            for mname, menv in modes:
+                if cache == 1 and mname != 'plain':
+                    continue
+                shutil.rmtree(pdir)
+                shutil.copytree(save, pdir, copy_function=shutil.copy2)
+                env = dict(env0)
+                env.update(menv)
+                rc, out, tags = run_tool(tool, arr, cache, ['scrub', '-p', 'full'], env, timeout=30)
+                stats['variants'] += 1
+                descr = dict(descr0, io_cache=cache, mode=mname, env=menv)
+                if rc == 'timeout':
+                    chk.violation('hang_diff_cross_%d' % cache, 'scrub does not terminate (--test-io-cache %d, %s)' % (cache, mname), descr)
+                    return stats
+                bad = bad_marks(tool, arr, env0)
+                summ = dict(t.split(':')[1:3] for t in tags if t.startswith('summary:error_'))
+                errs = sorted(':'.join(t.split(':')[1:4]) for t in tags if t.startswith('error:'))
+                if summ.get('error_data') != str(len(plan)) or summ.get('error_file') != '0' or bad != exp_bad or errs != exp_err or rc != 1:
+                    chk.violation('diff_cross_expected_%d_%s_np%d' % (cache, mname, np_),
+                                  'scrub --test-io-cache %d (reader order %s): silent errors of synced blocks sharing a stripe with a touched file of ANOTHER disk must be '
+                                  'error_data=%d error_file=0 with bad marks %s; got error_data=%s error_file=%s bad marks %s exit %s: the classification of a block depends on the other disks of its stripe / their arrival order'
+                                  % (cache, mname, len(plan), exp_bad, summ.get('error_data'), summ.get('error_file'), bad, rc),
+                                  dict(descr, tags=tags[:40], bad=bad, expected_bad=exp_bad))
+                cur_ = (rc, tags, bad, arr.snapshot())
+                if ref is None:
+                    ref = (cur_, cache, mname)
+                elif cur_ != ref[0]:
+                    what = 'exit status' if rc != ref[0][0] else ('error/summary tags' if tags != ref[0][1] else ('bad marks' if bad != ref[0][2] else 'content file'))
+                    chk.violation('diff_cross_state_%d_%s_np%d' % (cache, mname, np_),
+                                  'scrub of stripes shared by a touched file and a silent error on another disk: %s differ between (--test-io-cache %d, %s) and (--test-io-cache %d, %s)'
+                                  % (what, ref[1], ref[2], cache, mname), dict(descr, a=ref[0], b=cur_))
+    return stats
+
+
 def build_tsan(snap):
     cflags = ['-O1', '-g', '-D' + GUARD, '-fsanitize=thread', '-fno-omit-frame-pointer']
     objs = _compile_many_tsan(snap, cflags)
@@ -742,6 +827,7 @@ def main(tier, replay=None):
     if not dstats.get('hang'):
         dstats['rehash'] = diff_rehash(chk, tool, shim, base, rng)
         dstats['scrub_touch'] = diff_scrub_touch(chk, tool, shim, base, rng)
+        dstats['scrub_cross'] = diff_scrub_cross(chk, tool, shim, base, rng)
         if tier == 'thorough':
             for _ in range(4):
                 sub = os.path.join(base, 'more%d' % _)
